@@ -369,3 +369,27 @@ def r12e(ctx):
         else:
             ctx.bad(cid, mod.loc(p.stmt), f"index dtypes are declared shuffle-compatible under `{' and '.join(ast.unparse(t) for t in pos)[:120]}`: only identical dtypes (or all-numeric ones, which are cast before hashing) hash equal labels equally - dtypes that merely share a kind send the same label of the two frames to different partitions and the aligned operation pairs nothing")
     ctx.floor("accepting returns of _are_dtypes_shuffle_compatible", n, 1)
+
+
+@rule(
+    "R12f",
+    ["C12"],
+    """A KEY IS EITHER A COLUMN LABEL OR AN INDEX LEVEL, NEVER BOTH: `_select_columns_or_index` adds the index (`_index`) to the hashed key
+    frame when `_contains_index_name` says so, and selects the columns that `_is_column_label_reference` accepts. A frame whose index
+    name equals one of its column labels would contribute BOTH for that key unless `_is_index_level_reference` excludes column labels
+    (pandas resolves such a key to the column). Then this frame hashes (column, index) while its join / alignment partner hashes
+    (column) - equal keys go to different partitions. The index-level test must contain a `not in <df>.columns` term.""",
+)
+def r12f(ctx):
+    model = ctx.model
+    mod, fn = model.func("_shuffle", "_is_index_level_reference")
+    dfp, key = fn.args.args[0].arg, fn.args.args[1].arg
+    excl = False
+    for cmp_ in (x for x in ast.walk(fn) if isinstance(x, ast.Compare) and isinstance(x.ops[0], ast.NotIn) and ast.unparse(x.left) == key):
+        if "columns" in ast.unparse(cmp_.comparators[0]):
+            excl = True
+    cid = "_shuffle._is_index_level_reference:excludes-column-labels"
+    if excl:
+        ctx.ok(cid, mod.loc(fn), "a key that is also a column label is not an index level reference")
+    else:
+        ctx.bad(cid, mod.loc(fn), f"`{key}` is accepted as an index level reference although it may also be a column label (`{key} not in {dfp}.columns` is gone): the hashed key frame of such a frame contains the column AND the index, its partner's only the column, so the two are partitioned by different hashes and a hash join / aligned shuffle pairs nothing")
